@@ -22,6 +22,7 @@ import (
 	ucfg "github.com/elastic/go-ucfg"
 
 	"verif/internal/harness"
+	"verif/internal/model"
 )
 
 type check struct{}
@@ -65,11 +66,11 @@ type globalOpt struct {
 }
 
 var globals = []globalOpt{
-	{"none", polCtx{"default", "none"}, nil},
-	{"AppendValues", polCtx{"append", "global"}, []ucfg.Option{ucfg.AppendValues}},
-	{"PrependValues", polCtx{"prepend", "global"}, []ucfg.Option{ucfg.PrependValues}},
-	{"ReplaceValues", polCtx{"replace", "global"}, []ucfg.Option{ucfg.ReplaceValues}},
-	{"ReplaceArrValues", polCtx{"arr-replace", "global"}, []ucfg.Option{ucfg.ReplaceArrValues}},
+	{"none", polCtx{"default", "none", ""}, nil},
+	{"AppendValues", polCtx{"append", "global", ""}, []ucfg.Option{ucfg.AppendValues}},
+	{"PrependValues", polCtx{"prepend", "global", ""}, []ucfg.Option{ucfg.PrependValues}},
+	{"ReplaceValues", polCtx{"replace", "global", ""}, []ucfg.Option{ucfg.ReplaceValues}},
+	{"ReplaceArrValues", polCtx{"arr-replace", "global", ""}, []ucfg.Option{ucfg.ReplaceArrValues}},
 }
 
 // ---------------------------------------------------------------------------
@@ -148,7 +149,7 @@ func faultClass(kind string) string {
 		return "validate-tag"
 	case strings.HasPrefix(kind, "overflow-"), kind == "negative-into-uint":
 		return "overflow"
-	case strings.HasSuffix(kind, "-into-struct"), strings.HasSuffix(kind, "-into-map"):
+	case strings.HasSuffix(kind, "-into-struct"), strings.HasSuffix(kind, "-into-map"), strings.HasSuffix(kind, "-into-config"):
 		return "primitive-into-container"
 	case strings.Contains(kind, "-into-"):
 		return "conversion"
@@ -188,6 +189,14 @@ func (g *vgen) faultFor(f *field, pre reflect.Value) (*cval, string) {
 			return rawVal("text"), "string-into-struct"
 		}
 		return rawVal(5), "int-into-struct"
+	case kConfig:
+		switch r.Intn(3) {
+		case 0:
+			return rawVal("text"), "string-into-config"
+		case 1:
+			return rawVal(5), "int-into-config"
+		}
+		return rawVal(true), "bool-into-config"
 	case kSlicePrim:
 		c := &cval{form: "list"}
 		for i, n := 0, r.Intn(3); i < n; i++ {
@@ -333,13 +342,14 @@ type runner struct {
 	res     *harness.R
 	top     *stype
 	master  reflect.Value // the pre-filled value; never handed to Unpack
+	cfgs    map[uintptr]*model.Node // the trees of the pre-filled *Config fields of master
 	gopt    globalOpt
 	verbose bool
 }
 
 // fresh returns a pointer to a deep copy of the pre-fill and the identity map.
 func (rn *runner) fresh() (reflect.Value, map[uintptr]uintptr) {
-	cp := &copier{twin: map[uintptr]uintptr{}}
+	cp := &copier{twin: map[uintptr]uintptr{}, cfgs: rn.cfgs}
 	p := reflect.New(rn.top.typ)
 	p.Elem().Set(cp.copy(rn.master))
 	return p, cp.twin
@@ -376,7 +386,7 @@ func (rn *runner) context(cfg interface{}) func() string {
 
 // checkAtomic: after a failed Unpack the struct passed in equals the snapshot.
 func (rn *runner) checkAtomic(got reflect.Value, twin map[uintptr]uintptr, faultKind string, faultTop int, err error, ctx func() string) {
-	k := &comparer{res: rn.res, twin: twin, ctx: ctx}
+	k := &comparer{res: rn.res, twin: twin, cfgs: rn.cfgs, ctx: ctx}
 	for i := 0; i < rn.master.NumField(); i++ {
 		d := k.untouched(rn.master.Field(i), got.Field(i), "."+rn.top.typ.Field(i).Name)
 		if d == "" {
@@ -418,9 +428,9 @@ func (rn *runner) success(cfg *cval) {
 	}
 	exp := reflect.New(rn.top.typ)
 	exp.Elem().Set(deepCopy(rn.master))
-	m := &modeler{unmodelled: map[*field]bool{}}
+	m := &modeler{unmodelled: map[*field]bool{}, cfgs: rn.cfgs, cfgExp: map[*field]*model.Node{}}
 	m.applyStruct(rn.top, exp.Elem(), cfg, rn.gopt.pc)
-	k := &comparer{res: res, twin: twin, unmodelled: m.unmodelled, ctx: ctx}
+	k := &comparer{res: res, twin: twin, unmodelled: m.unmodelled, cfgs: rn.cfgs, cfgExp: m.cfgExp, ctx: ctx}
 	k.cmpStruct(rn.top, rn.master, exp.Elem(), target.Elem(), cfg, rn.gopt.pc, "top", "")
 	if rn.verbose {
 		fmt.Printf("option %s:\n  after %s\n  model %s\n", rn.gopt.name, render(target.Elem()), render(exp.Elem()))
@@ -495,6 +505,8 @@ func (rn *runner) monitors(st *stype, where string) {
 		if f.tagPol != "" {
 			if f.sub != nil && f.kind != kSliceStruct {
 				res.SetAdd("tag_option", f.tagPol+"(on struct field)")
+			} else if f.kind == kConfig {
+				res.SetAdd("tag_option", f.tagPol+"(on *Config field)")
 			} else {
 				res.SetAdd("tag_option", f.tagPol)
 			}
@@ -513,6 +525,13 @@ func (rn *runner) monitors(st *stype, where string) {
 			rn.monitors(f.sub, w)
 		}
 	}
+}
+
+func tagName(pol string) string {
+	if pol == "default" {
+		return "merge"
+	}
+	return pol
 }
 
 // listMonitors records which list policies the configuration exercises.
@@ -536,6 +555,26 @@ func (rn *runner) listMonitors(st *stype, c *cval, pre reflect.Value, pc polCtx)
 				state = "onto-empty"
 			}
 			rn.res.SetAdd("list_policy", fpc.src+":"+fpc.pol+":"+f.shape()+":"+state)
+			if fpc.overridesOuter() && state == "onto-filled" {
+				// a tag option decides against the policy that would be in force without it
+				rn.res.Ev("list_settings_where_tag_overrides_outer_policy", 1)
+				rn.res.SetAdd("tag_overrides_outer_policy", "list:"+fpc.src+":"+tagName(fpc.pol)+"-over-"+fpc.over)
+			}
+		case kConfig:
+			state := "onto-filled"
+			if !fpre.IsValid() || fpre.IsNil() {
+				state = "onto-nil"
+			}
+			shape := "object"
+			if cv.node != nil && cv.node.HasA {
+				shape = "list"
+			}
+			rn.res.Ev("config_field_settings", 1)
+			rn.res.SetAdd("config_field_policy", fpc.src+":"+fpc.pol+":"+shape+":"+state)
+			if fpc.overridesOuter() && state == "onto-filled" {
+				rn.res.Ev("config_settings_where_tag_overrides_outer_policy", 1)
+				rn.res.SetAdd("tag_overrides_outer_policy", "config:"+fpc.src+":"+tagName(fpc.pol)+"-over-"+fpc.over)
+			}
 		}
 	}
 }
@@ -546,8 +585,8 @@ func (check) Run(seed int64, tier string, idx int, verbose bool) harness.Result 
 	tr := rand.New(rand.NewSource(harness.Mix(seed, "C13type", idx/typeGroup)))
 
 	top := genTop(tr)
-	rn := &runner{res: res, top: top, gopt: globals[r.Intn(len(globals))], verbose: verbose}
-	g := &vgen{r: r}
+	rn := &runner{res: res, top: top, gopt: globals[r.Intn(len(globals))], verbose: verbose, cfgs: map[uintptr]*model.Node{}}
+	g := &vgen{r: r, cfgs: rn.cfgs}
 	rn.master = reflect.New(top.typ).Elem()
 	g.fillStruct(top, rn.master)
 	var stats cfgStats
